@@ -124,6 +124,10 @@ def tuple_key_cases(run, rng, n):
                 ng = rng.randint(1, 3)
                 by = np.array([rng.choice(list(range(ng + 1)) + [np.nan]) for _ in range(m)], dtype=float)
                 ex = np.arange(ng, dtype=float)
+                if rng.random() < 0.4:
+                    # INTEGER labels, the request is exactly 0..n-1, unrequested labels on both sides (-3, -2, -1, n, n+1): dropped, never wrapped
+                    by = np.array([rng.choice(list(range(-3, ng + 2))) for _ in range(m)], dtype=rng.choice(["int64", "int8"]))
+                    ex = np.arange(ng)
                 form = rng.choice(["array", "array", "index-shuffled", "list-shuffled"])
                 if form != "array":
                     # the same request in another container / order: with sort=True (default) the result is ascending all the same
